@@ -8,13 +8,29 @@ use emmylua_parser::{LuaAstNode, LuaTokenKind};
 use rowan::NodeOrToken;
 use tokio_util::sync::CancellationToken;
 
+/// Three short files with what the query paths care about: a class hierarchy (inherited member
+/// lookup, sub-type checks), a require, a global, an enum, a deprecated function, diagnostics.
 fn files(variant: u32) -> Vec<(&'static str, String)> {
     let n = variant;
     vec![
-        ("a.lua", format!("---Doc\n---@class Cls{n}\n---@field x integer\nlocal Cls{n} = {{}}\nfunction Cls{n}:foo() return self.x end\nGlob{n} = 1\nreturn Cls{n}\n")),
-        ("b.lua", format!("local C = require(\"a\")\n---@type Cls{n}\nlocal i = {{}}\nlocal y = i:foo() + Glob{n}\nlocal unused = undefinedThing\nreturn y\n")),
-        ("c.lua", format!("---@enum Color{n}\nlocal Color{n} = {{ Red = 1, Green = 2 }}\n---@type Color{n}\nlocal c = \"x\"\nreturn c\n")),
+        ("a.lua", format!("---@class Base{n}\n---@field v integer\n\n---Doc\n---@class Cls{n}: Base{n}\n---@field x integer\nlocal Cls{n} = {{}}\nfunction Cls{n}:foo() return self.x end\nGlob{n} = 1\nreturn Cls{n}\n")),
+        ("b.lua", format!("local C = require(\"a\")\n---@type Cls{n}\nlocal i = {{}}\nlocal y = i:foo() + Glob{n} + i.v\nlocal unused = undefinedThing\n---@deprecated\nlocal function old() end\nold()\nreturn y\n")),
+        ("c.lua", format!("---@enum Color{n}\nlocal Color{n} = {{ Red = 1, Green = 2 }}\n---@type Color{n}\nlocal c = \"x\"\n---@class Sub{n}: Cls{n}\n---@type Sub{n}\nlocal s = {{}}\nreturn c, s.v, s.x\n")),
     ]
+}
+
+fn build(variant: u32) -> (EmmyLuaAnalysis, Vec<FileId>) {
+    let root = std::path::PathBuf::from("/miri-ws");
+    let mut analysis = EmmyLuaAnalysis::new();
+    analysis.update_config(Arc::new(Emmyrc::default()));
+    analysis.add_main_workspace(root.clone());
+    let list: Vec<_> = files(variant).into_iter().map(|(rel, text)| (file_path_to_uri(&root.join(rel)).unwrap(), Some(text))).collect();
+    let mut ids = analysis.update_files_by_uri(list);
+    ids.sort();
+    // an edit after the load, as the server does on didChange (invalidates whatever is cached)
+    let (rel, text) = files(variant).remove(1);
+    analysis.update_file_by_uri(&file_path_to_uri(&root.join(rel)).unwrap(), Some(text));
+    (analysis, ids)
 }
 
 fn query_file(analysis: &EmmyLuaAnalysis, fid: FileId) -> Vec<String> {
@@ -44,15 +60,12 @@ fn main() {
     let args: Vec<String> = std::env::args().collect();
     let threads: usize = args.get(1).and_then(|s| s.parse().ok()).unwrap_or(3);
     let variant: u32 = args.get(2).and_then(|s| s.parse().ok()).unwrap_or(0);
-    let root = std::path::PathBuf::from("/miri-ws");
-    let mut analysis = EmmyLuaAnalysis::new();
-    analysis.update_config(Arc::new(Emmyrc::default()));
-    analysis.add_main_workspace(root.clone());
-    let list: Vec<_> = files(variant).into_iter().map(|(rel, text)| (file_path_to_uri(&root.join(rel)).unwrap(), Some(text))).collect();
-    let mut ids = analysis.update_files_by_uri(list);
-    ids.sort();
-    // sequential reference
-    let reference: Vec<Vec<String>> = ids.iter().map(|f| query_file(&analysis, *f)).collect();
+    // The sequential reference is computed on a separately built, identical analysis: querying the
+    // shared one first would warm any lazily filled cache and hide a race on its cold path.
+    let (reference_analysis, ref_ids) = build(variant);
+    let reference: Vec<Vec<String>> = ref_ids.iter().map(|f| query_file(&reference_analysis, *f)).collect();
+    drop(reference_analysis);
+    let (analysis, ids) = build(variant);
     let analysis = Arc::new(analysis);
     let mut handles = Vec::new();
     for t in 0..threads {
